@@ -76,7 +76,9 @@ func TestC11ListenersFromConfig(t *testing.T) {
 		}
 		var tcs []*tls.Config
 		for i, l := range cfg.Listen {
-			tc, err := makeTLSConfig(l)
+			res := flex(makeTLSConfig, l)
+			tc, _ := res[0].(*tls.Config)
+			err, _ := res[len(res)-1].(error)
 			if err != nil || tc == nil {
 				t.Fatalf("listener %d: makeTLSConfig: %v %v", i, tc, err)
 			}
